@@ -62,7 +62,18 @@ func setup() {
 	var err error
 	P, err = chainlab.NewPrelude(net, 16)
 	if err != nil {
-		ev.Fatal("prelude: %v", err)
+		if par.IsWorker() {
+			ev.Fatal("prelude: %v", err)
+		}
+		run := ev.Start("C13", "model_checking")
+		if strings.HasPrefix(err.Error(), "prelude block ") {
+			// 16 valid blocks (empty, coinbase rewards, spends of matured rewards) in order on a fresh node
+			run.Violation("valid-block-refused:prelude", err.Error(), map[string]interface{}{"what": err.Error()})
+			run.Capped("nothing beyond the prelude was enumerated")
+		} else {
+			run.Capped(fmt.Sprintf("world: could not be set up: %v", err))
+		}
+		run.Finish()
 	}
 	vtx = map[string]*types.Tx{}
 	vtx["spendU0"] = labnet.Pay([]labnet.Out{P.U[0]}, labnet.Prog(0x31))
